@@ -18,7 +18,8 @@ for line in open(os.path.join(ROOT, '.work/thorough2/SUMMARY.txt')):
     if m:
         seen[m.group(1)] = int(m.group(2))
 for pid, rc in seen.items():
-    if rc == 1:
+    if rc not in (0, 2):   # 1 = violation, 124 = timed out as a whole: nothing validated
+        ok.pop(pid, None) if rc == 124 else None
         continue
     spec = engine.load_spec(pid)
     names = [i['name'] for i in spec.INSTANCES if 'thorough' in i.get('tiers', ['quick', 'thorough'])]
